@@ -100,6 +100,49 @@ class _PermutedScandir:
         pass
 
 
+class _RFile:
+    """Proxy for files opened for READING inside the world while a scheduler is
+    active: every chunk read is a pre-emption point, before AND after the real
+    read (another thread may run between a read and the use of its result)."""
+
+    def __init__(self, f, path, seam):
+        object.__setattr__(self, "_f", f)
+        object.__setattr__(self, "_path", path)
+        object.__setattr__(self, "_seam", seam)
+
+    def _wrap(name):  # noqa: N805
+        def call(self, *a, **kw):
+            self._seam.read_point("read", self._path)
+            r = getattr(self._f, name)(*a, **kw)
+            self._seam.read_point("read_done", self._path)
+            return r
+
+        call.__name__ = name
+        return call
+
+    read = _wrap("read")
+    readinto = _wrap("readinto")
+    read1 = _wrap("read1")
+    readline = _wrap("readline")
+    del _wrap
+
+    def __enter__(self):
+        return self
+
+    def __exit__(self, *a):
+        self._f.close()
+        return False
+
+    def __iter__(self):
+        return iter(self._f)
+
+    def __getattr__(self, name):
+        return getattr(self._f, name)
+
+
+io.BufferedIOBase.register(_RFile)  # code under test may dispatch on isinstance(f, io.BufferedIOBase)
+
+
 class _WFile:
     """Thin proxy for files opened for writing inside the world: every write
     is a mutation point, close stamps the simulated mtime."""
@@ -171,6 +214,8 @@ class Seam:
         self.enabled = True
         self.idx_names = {}
         self.read_hook = None  # called with the path of every in-world open-for-read
+        self.fine_reads = False  # under a scheduler: pre-emption points at every chunk read (_RFile)
+        self.pool_interleave = False  # SimExecutor runs pool tasks as scheduled threads
 
     def reset(self, root=None, order_rng=None):
         """Start a fresh sub-run in the same process (new sub-world)."""
@@ -400,6 +445,8 @@ class Seam:
                     S.read_point("open_r", file)
                 if S.read_hook is not None and not isinstance(file, int) and S.inside(file):
                     S.read_hook(os.fspath(file))
+                if S.sched is not None and S.fine_reads and "b" in mode and not isinstance(file, int) and S.inside(file):
+                    return _RFile(real_open(file, mode, *a, **kw), os.fspath(file), S)
                 return real_open(file, mode, *a, **kw)
             S.point("open_w", file)
             f = real_open(file, mode, *a, **kw)
